@@ -513,7 +513,7 @@ def match_contract(ctx, F, b, R, effs, link, calls):
         else:
             h = hdrs[0]
             # from the Some-edge of the pop, can we get back to the header without passing the remove?
-            some_edges = [e for e in cfg.succ.get(_switch_after(b, cfg, pop_bb), []) if isinstance(e, tuple) and cfg.edge_label[e] == ('sw', 1)]
+            some_edges = [e for e in cfg.succ.get(_switch_after(b, cfg, pop_bb), []) if isinstance(e, tuple) and cfg.edge_label[e] == ('sw', (1,))]
             bad = False
             for e in some_edges:
                 if cfg.reaches(e, h, avoid=[rem[0].bb]):
